@@ -65,7 +65,7 @@ func (h *History) Add(form Form) {
 	if h.max <= len(h.forms) {
 		h.forms = h.forms[len(h.forms)-h.limit:]
 		tmp := fmt.Sprintf("%s.tmp", h.filename)
-		f, err := os.OpenFile(tmp, os.O_APPEND|os.O_CREATE|os.O_WRONLY, 0644)
+		f, err := os.OpenFile(tmp, os.O_TRUNC|os.O_APPEND|os.O_CREATE|os.O_WRONLY, 0644)
 		if err != nil {
 			panic(err)
 		}
